@@ -35,6 +35,10 @@ fn main() {
         let base = match ixv::exec::guarded(|| read_battery(arena, 0, &|| ())) {
             Ok(d) => d,
             Err(p) => {
+                if mismatches > 0 {
+                    // an earlier arena's readers already left damage behind (reported below)
+                    break;
+                }
                 println!("READERS-INCONCLUSIVE single-threaded battery panicked: {}", p);
                 std::process::exit(2);
             }
@@ -106,7 +110,7 @@ fn main() {
                 }
             }
         }
-        let after = read_battery(arena, 0, &|| ());
+        let after = ixv::exec::guarded(|| read_battery(arena, 0, &|| ())).unwrap_or_default();
         if after != base || *arena != snapshot {
             mismatches += 1;
             if first_detail.is_empty() {
